@@ -5,4 +5,5 @@ export GOTOOLCHAIN=local
 
 build:
 	cd engine && go build -o ../bin/gosym .
+	cd tools/instr && go build -o ../../bin/instr .
 	cd harness && cp /repo/go.sum go.sum.repo 2>/dev/null; go build ./... 
